@@ -105,3 +105,36 @@ def _so_post(a, ret, st):
 
 
 so.ensures("stores", _so_post)
+
+
+# ================================================================ cli/reveal_plate.main: the CALL plumbing (REGION: the statement calling reveal_plates): the loaded
+# screen and exactly the command line's plate ids are revealed
+import ast as _ast6
+from pyvc.spec import abstract_class as _abstract_class6
+from pyvc.values import AObj as _AObj6, Ref as _Ref6
+_abstract_class6("RevealCliArgs", None, {"plate_id": TSeq(TInt)})
+
+
+def _rv_apply(i, a, node, fr):
+    if not i._cur_label.split("[")[0].endswith("@call"):
+        return NotImplemented
+    i.ctx.ghost["reveal_call"] = a
+    return _AObj6("Screen", i.ctx.fresh("advanced_screen", _Ref6))
+
+
+rv.apply = _rv_apply
+rc_ = contract("batchie.cli.reveal_plate.main@call", params=[("screen", TAObj("Screen")), ("args", TAObj("RevealCliArgs"))])
+rc_.region = (lambda st: isinstance(st, _ast6.Assign) and isinstance(st.value, _ast6.Call) and getattr(st.value.func, "id", None) == "reveal_plates",) * 2
+
+
+def _rc_post(a, ret, st):
+    c = st.ctx.ghost.get("reveal_call")
+    if c is None:
+        return [("calls_reveal_plates", z3.BoolVal(False))]
+    from pyvc.spec import abstract_field_value, ABSTRACT_FIELDS
+    want = abstract_field_value("RevealCliArgs", "plate_id", ABSTRACT_FIELDS["RevealCliArgs"]["plate_id"], a.args.term, st)
+    return [("reveals_in_the_loaded_screen", z3.BoolVal(c.screen is a.screen or (hasattr(c.screen, "term") and c.screen.term.eq(a.screen.term)))),
+            ("reveals_exactly_the_requested_plate_ids", z3.BoolVal(hasattr(c.plate_ids, "seq") and c.plate_ids.seq.cols.eq(want.seq.cols) and c.plate_ids.seq.length.eq(want.seq.length)))]
+
+
+rc_.ensures("plumbing", _rc_post)
